@@ -486,6 +486,9 @@ class Extractor:
             hint = hint or self._name_hint(t)
         before = self.ids
         val = self.ev(s.value, name_hint=hint)
+        if isinstance(s.value, (ast.Await, ast.Yield, ast.YieldFrom)):
+            # a suspension point whose result is kept: recorded as an effect (its position among the other effects matters)
+            self.emit(Effect, s, call=val)
         val = self._wrap_collection(val, before, hint, s)
         # plain names first: if the value becomes a named variable, the other targets (m.submodules.x = x = ...) see it
         names = [t for t in s.targets if isinstance(t, ast.Name)]
@@ -550,11 +553,15 @@ class Extractor:
                 vid = self.fresh()
                 self.vardefs[vid] = val
                 val = ("v", "_".join(e.id for e in t.elts if isinstance(e, ast.Name)) or "unpacked", vid)
+            star = [k for k, e in enumerate(t.elts) if isinstance(e, ast.Starred)]
             for k, e in enumerate(t.elts):
                 if isinstance(e, ast.Starred):
-                    self.assign_target(e.value, ("i", val, ("slice", C(k), C(None), C(None))), s)
-                elif val[0] in ("tuple", "list") and len(val) - 1 == len(t.elts):
+                    after = len(t.elts) - 1 - k
+                    self.assign_target(e.value, ("i", val, ("slice", C(k), C(-after) if after else C(None), C(None))), s)
+                elif val[0] in ("tuple", "list") and len(val) - 1 == len(t.elts) and not star:
                     self.assign_target(e, val[1 + k], s)
+                elif star and k > star[0]:
+                    self.assign_target(e, index(val, C(k - len(t.elts))), s)  # counted from the end
                 else:
                     self.assign_target(e, index(val, C(k)), s)
         elif isinstance(t, ast.Attribute):
@@ -869,8 +876,15 @@ class Extractor:
         if isinstance(target, ast.Name):
             self.bind(target.id, val)
         elif isinstance(target, (ast.Tuple, ast.List)):
+            star = [k for k, e in enumerate(target.elts) if isinstance(e, ast.Starred)]
             for k, e in enumerate(target.elts):
-                self._assign_pattern(e, index(val, C(k)))
+                if isinstance(e, ast.Starred):
+                    after = len(target.elts) - 1 - k
+                    self._assign_pattern(e.value, ("i", val, ("slice", C(k), C(-after) if after else C(None), C(None))))
+                elif star and k > star[0]:
+                    self._assign_pattern(e, index(val, C(k - len(target.elts))))  # counted from the end
+                else:
+                    self._assign_pattern(e, index(val, C(k)))
         elif isinstance(target, ast.Starred):
             self._assign_pattern(target.value, val)
 
